@@ -145,19 +145,19 @@ fn compare(cx: &mut Case, redeem: &Arc<RedeemNode>, env: &ElementsTxEnv, espec: 
 // IR construction helpers for the template
 // ---------------------------------------------------------------------------------------------
 
-struct B {
-    nodes: Vec<Ir>,
-    eq_memo: Vec<(Arc<RTy>, Id)>,
+pub struct B {
+    pub nodes: Vec<Ir>,
+    pub eq_memo: Vec<(Arc<RTy>, Id)>,
 }
 
 impl B {
-    fn push(&mut self, ir: Ir) -> Id {
+    pub fn push(&mut self, ir: Ir) -> Id {
         self.nodes.push(ir);
         self.nodes.len() - 1
     }
 
     /// A constant of type `ty` with value `v`, source unit.
-    fn constant(&mut self, src: &mut Src, ty: &Arc<RTy>, v: &RVal) -> Id {
+    pub fn constant(&mut self, src: &mut Src, ty: &Arc<RTy>, v: &RVal) -> Id {
         if let Some(n) = ty.as_word() {
             if n <= 8 && src.chance(180) {
                 let mut bits = vec![];
@@ -204,7 +204,7 @@ impl B {
     }
 
     /// eq_T : T x T -> 2, combinators only (true = right).  One node per distinct type.
-    fn eq(&mut self, ty: &Arc<RTy>) -> Id {
+    pub fn eq(&mut self, ty: &Arc<RTy>) -> Id {
         if let Some((_, id)) = self.eq_memo.iter().find(|(t, _)| t == ty) {
             return *id;
         }
@@ -517,6 +517,108 @@ fn mode_general(cx: &mut Case, espec: &EnvSpec, env: &ElementsTxEnv) -> CaseResu
     Ok(())
 }
 
+/// Delegation template: `comp (disconnect S T) unit` where S compares the 256-bit commitment
+/// root it is handed (the root of T, which each evaluator computes or stores on its own) with a
+/// constant K and fails unless they are equal.  K = cmr(T) must succeed on both machines, a
+/// one-bit mutation must fail on both.
+fn mode_delegation(cx: &mut Case, pre: &Pre, espec: &EnvSpec, env: &ElementsTxEnv) -> CaseResult {
+    cx.label("mode: disconnect delegation template");
+    let mut st = Src::new(&pre.style);
+    let use_verify = st.chance(110);
+    let mutate = st.chance(90);
+    let t_kind = st.below(6);
+    let flip = st.below(256);
+    let mut hidden = [0u8; 32];
+    for b in hidden.iter_mut() {
+        *b = st.u8();
+    }
+    let mut src = cx.src.clone();
+    let cty = crate::gen::types::gen_ty(&mut src, 40, 3);
+    let cval = gen_val(&mut src, &cty);
+    let build = |src: &mut Src, k: &[bool]| -> Prog {
+        let mut b = B { nodes: vec![], eq_memo: vec![] };
+        let i = b.push(Ir::Iden);
+        let tk = b.push(Ir::Take(i));
+        let u0 = b.push(Ir::Unit);
+        let kw = b.push(Ir::Word(8, k.to_vec()));
+        let kc = b.push(Ir::Comp(u0, kw));
+        let p = b.push(Ir::Pair(tk, kc));
+        let e = b.eq(&RTy::word(8));
+        let tested = b.push(Ir::Comp(p, e));
+        let chk = if use_verify {
+            let vj = b.push(Ir::Jet(JetRef::Elements(Elements::Verify)));
+            b.push(Ir::Comp(tested, vj))
+        } else {
+            let u1 = b.push(Ir::Unit);
+            let pp = b.push(Ir::Pair(tested, u1));
+            let u2 = b.push(Ir::Unit);
+            let a = b.push(Ir::AssertR(hidden, u2));
+            b.push(Ir::Comp(pp, a))
+        };
+        let cco = if cty.is_unit() {
+            b.push(Ir::Unit)
+        } else {
+            let u1 = b.push(Ir::Unit);
+            let cc = b.constant(src, &cty, &cval);
+            b.push(Ir::Comp(u1, cc))
+        };
+        let s = b.push(Ir::Pair(chk, cco));
+        let ti = b.push(Ir::Iden);
+        let t = match (t_kind, &cty.kind) {
+            (0, _) => b.push(Ir::Unit),
+            (1, _) => ti,
+            (2, _) => b.push(Ir::InjL(ti)),
+            (3, _) => {
+                let u = b.push(Ir::Unit);
+                b.push(Ir::Pair(ti, u))
+            }
+            (4, RTyKind::Prod(..)) => b.push(Ir::Take(ti)),
+            (5, RTyKind::Prod(..)) => b.push(Ir::Drop(ti)),
+            _ => b.push(Ir::InjR(ti)),
+        };
+        let d = b.push(Ir::Disconnect(s, Some(t)));
+        let u = b.push(Ir::Unit);
+        let root = b.push(Ir::Comp(d, u));
+        Prog { nodes: b.nodes, root, family: Family::Elements }
+    };
+    let no_wit: HashMap<Id, Value> = HashMap::new();
+    // pass 1 (K = 0): learn the root of T as the Rust library computes it
+    let mut s1 = src.clone();
+    let probe = build(&mut s1, &vec![false; 256]);
+    let probe_redeem = build_redeem(&probe, true, &no_wit).map_err(|e| harness_error(format!("delegation probe: {:?}; {}", e, probe.render())))?;
+    let mut t_cmr = None;
+    for d in simplicity::dag::DagLike::post_order_iter::<simplicity::dag::InternalSharing>(probe_redeem.as_ref()) {
+        if let simplicity::node::Inner::Disconnect(_, r) = d.node.inner() {
+            t_cmr = Some(r.cmr().to_byte_array());
+        }
+    }
+    let t_cmr = t_cmr.ok_or_else(|| harness_error("delegation probe has no disconnect node"))?;
+    let mut k: Vec<bool> = t_cmr.iter().flat_map(|b| (0..8).rev().map(move |i| (b >> i) & 1 == 1)).collect();
+    if mutate {
+        k[flip] = !k[flip];
+    }
+    cx.label(if mutate { "K = cmr(T) with one bit flipped (must fail)" } else { "K = cmr(T) (must succeed)" });
+    cx.label(if use_verify { "check by verify jet" } else { "check by assertr" });
+    let prog = build(&mut src, &k);
+    cx.src = src;
+    let redeem = build_redeem(&prog, true, &no_wit).map_err(|e| harness_error(format!("delegation program: {:?}; {}", e, prog.render())))?;
+    let predicted = if !mutate {
+        Verdict::Success
+    } else if use_verify {
+        Verdict::JetFailure
+    } else {
+        Verdict::Assertion
+    };
+    cx.set_sample(|| json!({"mode": "disconnect delegation", "predicted": format!("{:?}", predicted), "program": prog.render()}));
+    let describe = || format!("delegation template (predicted {:?}); program {}", predicted, prog.render());
+    let rust = compare(cx, &redeem, env, espec, &describe)?;
+    if !matches!(rust, Verdict::Outside(_)) && rust != predicted {
+        return Err(format!("the Rust machine hands the disconnected branch's root to the left child incorrectly: predicted {:?}, got {:?}; {}", predicted, rust, describe()));
+    }
+    cx.nontrivial = cx.labels.iter().any(|l| *l == "verdicts compared");
+    Ok(())
+}
+
 pub fn case(cx: &mut Case) -> CaseResult {
     let template = cx.src.weighted(&[3, 7]) == 1;
     let n_jets = JETS.with(|j| j.len());
@@ -526,7 +628,9 @@ pub fn case(cx: &mut Case) -> CaseResult {
     let env = espec.build();
     cx.label_if(espec.tx.input.len() >= 2, "env: >= 2 inputs");
     cx.label_if(!espec.tx.output.is_empty(), "env: has outputs");
-    if template {
+    if template && pre.style[63] < 26 {
+        mode_delegation(cx, &pre, &espec, &env)
+    } else if template {
         mode_template(cx, &pre, &espec, &env)
     } else {
         mode_general(cx, &espec, &env)
